@@ -464,21 +464,28 @@ impl State {
                 }
             }
         }
-        // open upvalue list
+        // The list of open upvalues is not a root: an upvalue is reachable through the closures
+        // that use it (and, while it is being created, through its guard). The walk only counts
+        // the unclosed ones: upvalues whose variable has left the stack without a CloseUpvalue.
+        let stack_lo = view.value_stack.as_ptr() as usize;
+        let stack_hi = stack_lo + view.value_stack.len() * std::mem::size_of::<Value>();
+        let stack_end = stack_lo + view.value_stack_capacity * std::mem::size_of::<Value>();
         let mut up = view.open_upvalues;
         let mut guard = 0;
         while !up.is_null() && guard < 100_000 {
             guard += 1;
             let k = up as usize;
-            if !seen.contains_key(&k) {
-                seen.insert(k, ("open-upvalue", "root"));
-                work.push((k, "open-upvalue"));
-            }
             let o = unsafe { &*up };
-            match &o.body {
-                CaoLangObjectBody::Upvalue(u) => up = u.next,
-                _ => break,
+            let CaoLangObjectBody::Upvalue(u) = &o.body else { break };
+            let loc = u.location as usize;
+            if !(loc >= stack_lo && loc < stack_hi) {
+                self.c.dangling_open_upvalue += 1;
+                if std::env::var_os("CAOSIM_DEBUG").is_some() {
+                    let slot = (loc as isize - stack_lo as isize) / std::mem::size_of::<Value>() as isize;
+                    eprintln!("unclosed upvalue obj#{:?} slot={} stack_len={}", self.obj_ordinal.get(&k), slot, view.value_stack.len());
+                }
             }
+            up = u.next;
         }
         for (g, n) in self.guards.iter() {
             if *n > 0 && !seen.contains_key(g) {
@@ -496,8 +503,6 @@ impl State {
         for v in host_args.iter() {
             push_val(v, "host-arg", "root", &mut seen, &mut work);
         }
-        let stack_lo = view.value_stack.as_ptr() as usize;
-        let stack_hi = stack_lo + view.value_stack.len() * std::mem::size_of::<Value>();
         while let Some((p, class)) = work.pop() {
             let o = unsafe { &*(p as *const CaoLangObject) };
             match &o.body {
@@ -524,15 +529,12 @@ impl State {
                 CaoLangObjectBody::Upvalue(u) => {
                     let loc = u.location as usize;
                     let own = &u.value as *const Value as usize;
-                    if loc == own || (loc >= stack_lo && loc < stack_hi) {
+                    // a closure reads its captured variable through `location` wherever that points:
+                    // its own closed value, a live stack slot, or (unclosed upvalue) a slot above
+                    // the stack top, which is still memory of the value stack
+                    if loc == own || (loc >= stack_lo && loc < stack_end) {
                         let v = unsafe { &*u.location };
                         push_val(v, class, "upvalue-target", &mut seen, &mut work);
-                    } else if !u.location.is_null() {
-                        self.c.dangling_open_upvalue += 1;
-                        if std::env::var_os("CAOSIM_DEBUG").is_some() {
-                            let slot = (loc as isize - stack_lo as isize) / std::mem::size_of::<Value>() as isize;
-                            eprintln!("dangling upvalue obj#{:?} class={} slot={} stack_len={}", self.obj_ordinal.get(&p), class, slot, view.value_stack.len());
-                        }
                     }
                 }
                 _ => {}
